@@ -310,6 +310,12 @@ impl<'a, 'tcx> Cx<'a, 'tcx> {
                         }
                     } else if let ConstValue::ZeroSized = val {
                         out.push_str(",\"zst\":true");
+                    } else if let ConstValue::Scalar(rustc_middle::mir::interpret::Scalar::Ptr(ptr, _)) = val {
+                        // reference to a static item
+                        let (prov, _off) = ptr.into_raw_parts();
+                        if let Some(rustc_middle::mir::interpret::GlobalAlloc::Static(sd)) = tcx.try_get_global_alloc(prov.alloc_id()) {
+                            let _ = write!(out, ",\"static\":{}", js(&path_s(tcx, sd)));
+                        }
                     }
                 }
                 Const::Unevaluated(u, _) => {
@@ -878,6 +884,34 @@ fn dump_items<'tcx>(tcx: TyCtxt<'tcx>, out: &mut String) {
                 let _ = write!(out, ",\"mac\":{}", js(&m));
             }
             out.push('}');
+        }
+    }
+    out.push_str("],\"statics\":[");
+    let mut first = true;
+    for ld in tcx.hir_crate_items(()).definitions() {
+        let did = ld.to_def_id();
+        if let DefKind::Static { mutability, nested, .. } = tcx.def_kind(did) {
+            if nested || mutability.is_mut() {
+                continue;
+            }
+            let ty = tcx.type_of(did).instantiate_identity().skip_norm_wip();
+            if !ty.is_integral() {
+                continue;
+            }
+            let Ok(alloc) = tcx.eval_static_initializer(did) else { continue };
+            let alloc = alloc.inner();
+            let size = alloc.size();
+            let r = rustc_middle::mir::interpret::alloc_range(rustc_abi::Size::ZERO, size);
+            if let Ok(sc) = alloc.read_scalar(&tcx, r, false) {
+                if let Ok(si) = sc.try_to_scalar_int() {
+                    if !first {
+                        out.push(',');
+                    }
+                    first = false;
+                    let v: i128 = if ty.is_signed() { si.to_int(si.size()) } else { si.to_bits(si.size()) as i128 };
+                    let _ = write!(out, "{{\"path\":{},\"ty\":{},\"int\":{}}}", js(&path_s(tcx, did)), js(&ty_s(ty)), v);
+                }
+            }
         }
     }
     out.push_str("],\"consts\":[");
